@@ -1263,3 +1263,54 @@ func (in *Interp) isSet(at *Node, e *Expr) (ok bool) {
 
 // Log records a probe call (used by functions registered through Funcs).
 func (in *Interp) Log(s string) { in.calls = append(in.calls, s) }
+
+// ---- Runtime API mirror (used by C18: functions registered through Funcs act on the call site's scopes) ----
+
+// APILet declares in the innermost open scope, as := does.
+func (in *Interp) APILet(name string, v interface{}) { in.scope.vars[name] = v }
+
+// APISet rebinds like = ; false if the variable is undeclared.
+func (in *Interp) APISet(name string, v interface{}) bool {
+	for fr := in.scope; fr != nil; fr = fr.parent {
+		if _, ok := fr.vars[name]; ok {
+			fr.vars[name] = v
+			return true
+		}
+	}
+	return false
+}
+
+// APILetGlobal binds in the outermost template scope (the variables passed to Execute).
+func (in *Interp) APILetGlobal(name string, v interface{}) {
+	fr := in.scope
+	for fr.parent != nil {
+		fr = fr.parent
+	}
+	fr.vars[name] = v
+}
+
+// APIResolve is identifier lookup.
+func (in *Interp) APIResolve(name string) (interface{}, bool) { return in.lookupVar(name) }
+
+// Ctx is '.'.
+func (in *Interp) Ctx() interface{} { return in.ctx }
+
+// APIYield renders block name once, like {{yield name() ctx}}; false if there is no such block.
+func (in *Interp) APIYield(name string, ctx interface{}, withCtx bool) bool {
+	def := in.findBlock(name)
+	if def == nil {
+		return false
+	}
+	saved := in.ctx
+	if withCtx {
+		in.ctx = ctx
+	}
+	in.list(def.node.Body)
+	in.ctx = saved
+	return true
+}
+
+// Fail lets a registered function report an error at the current action.
+func (in *Interp) Fail(class, msg string) {
+	panic(&ModelError{Class: class, Msg: msg})
+}
